@@ -156,3 +156,12 @@ def cases(tier, seed, ctx=None):
     for j in range(2 if tier == "quick" else 10):
         yield ("tlsraw", [b"GET /notify HTTP/1.1\r\nHost: h\r\n\r\n", 0, 0, [], 1, 0, 0], "%s-notifications-before-close" % 'tlsraw')
     yield ("tlsraw", [b"GET /bighuge HTTP/1.1\r\nHost: h\r\n\r\n", 0, 0, [], 1, 0, 6], "%s-slow-reader" % 'tlsraw')
+    # declared lengths around every 32-bit and 64-bit boundary, with the body absent, partly there, or arriving later: none of them
+    # may bring the process down (allocation sizes, narrowing)
+    v11, t11 = G.oracle(ctx, [b"/up"])
+    e11 = G.env_for(v11, t11, [b"/up"])
+    for cl in (2**31 - 1, 2**31, 2**31 + 5, 3000000000, 2**32 - 2, 2**32 - 1, 2**32, 2**32 + 2**31 + 9, 6 * 2**30, 2**53, 2**63 - 1, 2**63, 2**64, -1, -2**31, -2**63):
+        head = b"POST /up HTTP/1.1\r\nHost: h\r\nContent-Length: %d\r\n\r\n" % cl
+        for ops in ([G.Construct, G.Feed(head), G.Turn], [G.Construct, G.Feed(head + b"abc"), G.Feed(b"defg"), G.Turn, G.PeerFin, G.Turn],
+                    [G.Feed(head + b"x"), G.Construct, G.Turn, G.App(G.ReadAll)]):
+            yield ("sock", [rng.choice(pols), ops, e11, [19]], "length-at-a-boundary")
